@@ -7,6 +7,7 @@ checks = [pid] + sys.argv[3:]
 BASE = os.environ.get("MUT_BASE", "/tmp/mut")
 WT, OUT = "%s/%s" % (BASE, pid), "%s/%s-out" % (BASE, pid)
 ENV = "GOFLAGS=-mod=mod GOPROXY=off GOSUMDB=off GOTOOLCHAIN=local"
+RACE = "-race" if pid == "C16" else ""      # C16 demonstrations rely on the race detector
 def sh(c, t=1200):
     p = subprocess.run(c, shell=True, stdout=subprocess.PIPE, stderr=subprocess.STDOUT, timeout=t)
     return p.returncode, p.stdout.decode("utf-8", "replace")
@@ -18,9 +19,9 @@ PKGDIR = {"idl": "varlink/idl", "idl_test": "varlink/idl", "varlink": "varlink",
 def run_demo():
     """-> (passed?, output)"""
     if os.path.exists(os.path.join(demo, "go.mod")):
-        rc, out = sh("cd %s && %s go run . 2>&1 | tail -15" % (demo, ENV), 600)
+        rc, out = sh("cd %s && %s go run %s . 2>&1 | tail -15" % (demo, ENV, RACE), 600)
         # `| tail` hides the exit status: look at the text
-        rc2, out2 = sh("cd %s && %s go run . >/dev/null 2>&1; echo rc=$?" % (demo, ENV), 600)
+        rc2, out2 = sh("cd %s && %s go run %s . >/dev/null 2>&1; echo rc=$?" % (demo, ENV, RACE), 600)
         ok = "rc=0" in out2 and "VIOLATION" not in out
         return ok, out
     copied = []
@@ -32,8 +33,8 @@ def run_demo():
         shutil.copy(f, dst); copied.append(dst); dirs.add(d)
     out_all, ok = "", True
     for d in dirs:
-        rc, out = sh("cd %s && %s go test -count=1 ./%s/ 2>&1 | tail -12" % (WT, ENV, d), 900)
-        rc2, out2 = sh("cd %s && %s go test -count=1 ./%s/ >/dev/null 2>&1; echo rc=$?" % (WT, ENV, d), 900)
+        rc, out = sh("cd %s && %s go test %s -count=1 ./%s/ 2>&1 | tail -12" % (WT, ENV, RACE, d), 900)
+        rc2, out2 = sh("cd %s && %s go test %s -count=1 ./%s/ >/dev/null 2>&1; echo rc=$?" % (WT, ENV, RACE, d), 900)
         ok = ok and "rc=0" in out2
         out_all += out
     for c in copied:
